@@ -584,6 +584,61 @@ class NativeDecoy(NativeCheck):
                        order=rng.choice(['juxtaposed', 'target_first', 'decoy_first']), seed=rng.randint(1, 10 ** 6),
                        position=rng.choice(['prefix', 'suffix']))
 
+        # targets that share a sequence under different headers (each is a target of its own), and near-identical low-complexity targets
+        # whose first shuffle collides, so that the retry path runs
+        yield dict(kind='command-records', records=[['a|one', 'PEPTIDEK'], ['b|two', 'MKAAGR'], ['c|three', 'PEPTIDEK'], ['d|four', 'GGLLKR']], method='reverse',
+                   enzyme=None, seed=7)
+        yield dict(kind='command-records', records=[['a|one', 'PEPTIDEK'], ['b|two', 'MKAAGR'], ['c|three', 'PEPTIDEK'], ['d|four', 'GGLLKR']], method='shuffle',
+                   enzyme='trypsin', seed=11)
+        low = ['M' + a + b + 'G' + c_ + d_ + 'R' for a, b, c_, d_ in itertools.product('AKEF', repeat=4)]
+        for seed in ((1, 2, 3) if tier != 'thorough' else range(1, 9)):
+            pick = [low[(seed * 37 + 11 * j) % len(low)] for j in range(18)]
+            pick = list(dict.fromkeys(pick))
+            yield dict(kind='command-records', records=[[f'h{j}|x', p] for j, p in enumerate(pick)], method='shuffle', enzyme='trypsin', seed=seed)
+
+    def check_records(self, inp):
+        """every input record is a target of its own (also when two share a sequence) and gets exactly one decoy that keeps, relative to
+        ITS target, the positions find_fixed_indices names for that target"""
+        import tempfile, shutil, argparse, os
+        from pathlib import Path
+        from moPepGen import cli
+        from moPepGen.cli.decoy_fasta import DecoyFasta
+        from Bio.Seq import Seq
+        tmp = tempfile.mkdtemp(prefix='pyvc_c20r_')
+        try:
+            src = os.path.join(tmp, 'in.fasta')
+            with open(src, 'w') as fh:
+                for h, s_ in inp['records']:
+                    fh.write(f'>{h}\n{s_}\n')
+            a = argparse.Namespace(command='decoyFasta', input_path=Path(src), output_path=Path(os.path.join(tmp, 'out.fasta')), decoy_string='DECOY_',
+                                   decoy_string_position='prefix', method=inp['method'], enzyme=inp['enzyme'], shuffle_max_attempts=30, non_shuffle_pattern='',
+                                   keep_peptide_nterm='true', keep_peptide_cterm='true', seed=inp['seed'], order='juxtaposed', quiet=True)
+            cli.decoy_fasta(a)
+            recs, cur = [], None
+            for line in open(a.output_path):
+                line = line.rstrip('\n')
+                if line.startswith('>'):
+                    recs.append([line[1:], ''])
+                else:
+                    recs[-1][1] += line
+            targets = sorted((h, s_) for h, s_ in recs if not h.startswith('DECOY_'))
+            if targets != sorted((h, s_) for h, s_ in inp['records']):
+                return dict(call=f'decoyFasta on {inp["records"][:4]}...', observed=targets[:6], expected='every input record written unchanged as a target', signature='target-lost-or-changed')
+            by_header = dict((h, s_) for h, s_ in inp['records'])
+            decoys = [(h, s_) for h, s_ in recs if h.startswith('DECOY_')]
+            if sorted(h[6:] for h, _ in decoys) != sorted(by_header):
+                return dict(call='decoyFasta', observed=sorted(h for h, _ in decoys)[:6], expected='exactly one decoy per target, named after it', signature='decoy-count')
+            probe = DecoyFasta(None, None, inp['method'], inp['enzyme'], True, True, [''], 30, inp['seed'], 'DECOY_', 'prefix', 'juxtaposed')
+            for h, s_ in decoys:
+                t = by_header[h[6:]]
+                fixed = probe.find_fixed_indices(Seq(t))
+                if len(s_) != len(t) or sorted(s_) != sorted(t) or any(s_[i] != t[i] for i in fixed):
+                    return dict(call=f'decoy of {t} ({inp["method"]}, enzyme {inp["enzyme"]}, seed {inp["seed"]})', observed=s_, expected=f'a rearrangement of {t} keeping positions {sorted(fixed)}',
+                                signature='decoy-does-not-keep-the-fixed-positions-of-its-target')
+        finally:
+            shutil.rmtree(tmp, ignore_errors=True)
+        return None
+
     def nontrivial(self, inp):
         if inp['kind'] == 'rearrange':
             return (inp['seq'], tuple(inp['fixed'])) if len(inp['seq']) >= 2 and len(set(inp['seq'])) > 1 else None
@@ -623,6 +678,8 @@ class NativeDecoy(NativeCheck):
                 return dict(call=f'find_fixed_indices({s!r}, enzyme={inp["enzyme"]})', observed=sorted(got), expected=sorted(want),
                             signature='site-index-instead-of-residue-index' if got == pos | sites else 'other')
             return None
+        if inp['kind'] == 'command-records':
+            return self.check_records(inp)
         # whole command
         import tempfile, shutil, argparse, os
         from moPepGen import cli
